@@ -56,6 +56,13 @@ CLAIMED.update({
     },
 })
 
+CLAIMED.update({
+    "C18": {
+        "text": "All allow-list x request rule-set pairs (sizes 0..2 each; thorough 2x2 over the 48-rule core universe = 1.27M pairs) over groups {'',g,*} x resources {r,r/status,*,*/status} x names {none,[n],['*']} x verbs {[get],[*]}, non-resource URL rules and mixed rules are run through the real validator and compared with an independent evaluator of Kubernetes RBAC over concrete requests (universe = mentioned constants + one fresh symbol per dimension): if Crossplane accepts, everything the requests grant is granted by the allow-list (being stricter is counted, not a violation). Reconciler level (real roles, binding and definition reconcilers over simkube): any uncovered request => no ClusterRole write; otherwise granted-by(system role) is a subset of own CRDs + same-family same-registry+org CRDs (+status, finalizers) + baseline + requests, over family label x package source (registry/org/prefix/digest/invalid) x owned reference lists; XRD roles grant exactly composite and claim resources.",
+        "technique": "exhaustive small-scope enumeration of rule-set pairs against an independent RBAC reference evaluator; real reconcilers over the API-server model",
+    },
+})
+
 PENDING_REASON = "not claimed yet: the check for this property is still being built (design in DESIGN.md section 3); no technique switch is intended"
 
 
